@@ -17,7 +17,8 @@ Environment (kernel + peer), an explicit input:
     `k` is arbitrary: this covers short reads and a kernel that stops at a descriptor boundary.
   * a `recvmsg` with a ZERO length buffer (observed on Linux 6.18, AF_UNIX stream): EAGAIN when nothing is
     queued, otherwise 0 bytes are returned and the descriptors riding on the next queued byte are handed
-    over (detached from the queue) all the same.
+    over (detached from the queue) all the same. Since the repair of `refill_buffer` (early return when
+    `max_buffer_size <= filled`) the client never issues such a call: `refill_request_pos` (Lemmas/Recv.lean).
 Descriptors are identified by a number (the open file they refer to, what `fstat` shows), not by the fd value.
 -/
 namespace Rustbus.Recv
@@ -100,16 +101,20 @@ inductive Res
 def reserve (st : State) (maxBuf : Nat) : State :=
   { st with cap := max st.cap (min maxBuf (st.buf.length + maxGrowth)) }
 
-/-- `refill_buffer(max_buffer_size, _)` with the kernel's answer `k`: reserve, ONE `recvmsg` into
-    `buf[filled..]`, 0 bytes → `ConnectionClosed` (before the control messages are looked at),
-    otherwise descriptors appended to `fds_in` and `filled += bytes` -/
+/-- `refill_buffer(max_buffer_size, _)` with the kernel's answer `k`:
+    `if max_buffer_size <= self.msg_buf_in.len() { return Ok(()) }` - the buffer already holds everything it
+    may hold for the current message: nothing is reserved, NO `recvmsg` is issued, state and socket are
+    untouched; otherwise reserve, ONE `recvmsg` into `buf[filled..]`, 0 bytes → `ConnectionClosed` (before
+    the control messages are looked at), otherwise descriptors appended to `fds_in` and `filled += bytes` -/
 def refill (st : State) (w : World) (maxBuf k : Nat) : Res × State × World :=
-  let st1 := reserve st maxBuf
-  match recvmsg w (st1.cap - st.buf.length) k with
-  | (.eagain, w') => (.timedOut, st1, w')
-  | (.data bytes fds, w') =>
-    if bytes.isEmpty then (.closed, st1, w')
-    else (.readOk, { st1 with buf := st.buf ++ bytes, fds := st.fds ++ fds }, w')
+  if maxBuf ≤ st.buf.length then (.readOk, st, w)
+  else
+    let st1 := reserve st maxBuf
+    match recvmsg w (st1.cap - st.buf.length) k with
+    | (.eagain, w') => (.timedOut, st1, w')
+    | (.data bytes fds, w') =>
+      if bytes.isEmpty then (.closed, st1, w')
+      else (.readOk, { st1 with buf := st.buf ++ bytes, fds := st.fds ++ fds }, w')
 
 /-- what happens during one client call: more bytes arrive, the kernel answers a `recvmsg` -/
 inductive Ev
